@@ -1,5 +1,8 @@
-(** Model of deepdiff/search.py (class DeepSearch) over the shared value
-    universe of Base/Value.v.  Definitions only.
+(** Model of deepdiff/search.py (class DeepSearch) over [xvalue]: the shared value
+    universe of Base/Value.v (embedded by [inj]) extended with class instances
+    ([XObj]: __dict__ / __slots__ objects, bound methods), named tuples ([XNamed]) and
+    objects whose attributes cannot be read ([XOpaque]: the `unprocessed` list).
+    The searched ITEM stays a [value].  Definitions only.
 
     The model follows the code, defects included:
     - [prepare]       = the item normalisation of __init__ (case folding of the
@@ -15,7 +18,14 @@
     - [thing_events]  = one round of the loop of __search_iterable:
                         __skip_this(thing, new_parent), the equality shortcut
                         (report and do not descend), else __search;
-    - [search_str], [search_numbers], [search_obj_atom] = the leaf comparers.
+    - [search_str], [search_numbers], [search_obj_atom] = the leaf comparers;
+    - [XObj] / [XNamed] / [XOpaque] = __search_obj: `obj == item` (true only for a
+                        named tuple facing an equal tuple item: reported, and searched
+                        inside all the same), then __search_dict(print_as_attribute=True)
+                        over {name: getattr(obj, name) for name in dir(obj) if not dunder}
+                        (a named tuple: obj._asdict()); when reading the attributes raises
+                        AttributeError (an unset slot, a property that raises) the path goes
+                        to `unprocessed` and nothing below it is searched.
     Since /repo commits 9553299 / 49764d9 a str item (or str pattern) is simply
     not found in a bytes leaf and vice versa, and a bytes pattern never matches
     a path text, and since bcd9dc1 a bytes pattern is not applied to str(number)
@@ -34,8 +44,94 @@ From Coq Require Import List ZArith NArith Bool Arith String.
 Import ListNotations.
 From DD Require Import Base.Sx Base.PyStr Base.Value.
 
-Inductive step := SKey (k : atom) | SIdx (i : nat).
+Inductive step := SKey (k : atom) | SIdx (i : nat) | SAttr (n : pystr).
 Definition path := list step.
+
+(* the searched objects *)
+Inductive xvalue :=
+| XAtom (a : atom)
+| XList (xs : list xvalue)
+| XTuple (xs : list xvalue)
+| XDict (kvs : list (atom * xvalue))    (* insertion order; keys pairwise not py_eq *)
+| XSet (xs : list atom)                 (* iteration order *)
+| XFrozen (xs : list atom)
+| XObj (cls : pystr) (attrs : list (pystr * xvalue))
+      (* an instance of a class: [(n, getattr(obj, n)) for n in dir(obj) if not dunder] (dir() order:
+         sorted names; class attributes and bound methods included).  A bound method / builtin
+         function is an instance without such attributes. *)
+| XNamed (cls : pystr) (fields : list (pystr * xvalue))   (* a named tuple: obj._asdict() *)
+| XOpaque (cls : pystr).                (* reading the attributes raises AttributeError *)
+
+Fixpoint inj (v : value) : xvalue :=
+  match v with
+  | VAtom a => XAtom a
+  | VList xs => XList (map inj xs)
+  | VTuple xs => XTuple (map inj xs)
+  | VDict kvs => XDict (map (fun kv => (fst kv, inj (snd kv))) kvs)
+  | VSet xs => XSet xs
+  | VFrozen xs => XFrozen xs
+  end.
+
+(* types: the builtin ones, classes of instances, named-tuple classes (subclasses of tuple) *)
+Inductive xty := TyB (t : ty) | TyObj (cls : pystr) | TyNamed (cls : pystr).
+Definition xtype_of (v : xvalue) : xty :=
+  match v with
+  | XAtom a => TyB (atom_ty a)
+  | XList _ => TyB TList | XTuple _ => TyB TTuple | XDict _ => TyB TDict
+  | XSet _ => TyB TSet | XFrozen _ => TyB TFrozen
+  | XObj c _ | XOpaque c => TyObj c
+  | XNamed c _ => TyNamed c
+  end.
+
+Fixpoint nodup_strs (l : list pystr) : bool :=
+  match l with
+  | [] => true
+  | s :: r => negb (existsb (pystr_eqb s) r) && nodup_strs r
+  end.
+
+(* representation invariant: dicts / sets as in [wf]; attribute / field names pairwise distinct *)
+Fixpoint xwf (v : xvalue) : bool :=
+  match v with
+  | XAtom _ | XOpaque _ => true
+  | XList xs | XTuple xs => forallb xwf xs
+  | XDict kvs => nodup_atoms (map fst kvs) && forallb (fun kv => xwf (snd kv)) kvs
+  | XSet xs | XFrozen xs => nodup_atoms xs
+  | XObj _ avs | XNamed _ avs => nodup_strs (map fst avs) && forallb (fun av => xwf (snd av)) avs
+  end.
+
+(* Python  x == w  for a searched object x and an item w (classes of instances do not define
+   __eq__: identity, never equal to a value; a named tuple compares as the tuple of its fields) *)
+Fixpoint xeqv (a : xvalue) (b : value) {struct a} : bool :=
+  match a, b with
+  | XAtom x, VAtom y => py_eq x y
+  | XList xs, VList ys | XTuple xs, VTuple ys =>
+      (fix go (xs : list xvalue) (ys : list value) {struct xs} : bool :=
+         match xs, ys with
+         | [], [] => true
+         | x :: xs', y :: ys' => xeqv x y && go xs' ys'
+         | _, _ => false
+         end) xs ys
+  | XNamed _ fs, VTuple ys =>
+      (fix go (fs : list (pystr * xvalue)) (ys : list value) {struct fs} : bool :=
+         match fs, ys with
+         | [], [] => true
+         | f :: fs', y :: ys' => xeqv (snd f) y && go fs' ys'
+         | _, _ => false
+         end) fs ys
+  | XDict xs, VDict ys =>
+      Nat.eqb (List.length xs) (List.length ys) &&
+      (fix go (xs : list (atom * xvalue)) : bool :=
+         match xs with
+         | [] => true
+         | kv :: xs' => match assoc (fst kv) ys with
+                        | Some v' => xeqv (snd kv) v'
+                        | None => false
+                        end && go xs'
+         end) xs
+  | XSet xs, VSet ys | XSet xs, VFrozen ys | XFrozen xs, VSet ys | XFrozen xs, VFrozen ys =>
+      Nat.eqb (List.length xs) (List.length ys) && forallb (fun x => mem_atom x ys) xs
+  | _, _ => false
+  end.
 
 Record config := mkConfig {
   cs_flag : bool;            (* case_sensitive argument *)
@@ -43,7 +139,7 @@ Record config := mkConfig {
   use_regexp : bool;
   strict : bool;             (* strict_checking *)
   excl_paths : list pystr;   (* exclude_paths, as texts *)
-  excl_types : list ty       (* exclude_types *)
+  excl_types : list xty      (* exclude_types *)
 }.
 
 (* the item after __init__: an atom (None; a number only in strict mode; a
@@ -56,10 +152,11 @@ Inductive eitem :=
 Inductive prep := PRaise | PItem (cs : bool) (it : eitem).
 
 Inductive event :=
-| EvValue (p : path) (v : value)     (* __report('matched_values', text p, v) *)
-| EvPath (p : path) (v : value)      (* __report('matched_paths', text p, v) *)
-| EvAttr (p : path) (name : pystr).  (* __report('matched_paths', text p ++ "." ++ name, <bound method>):
+| EvValue (p : path) (v : xvalue)    (* __report('matched_values', text p, v) *)
+| EvPath (p : path) (v : xvalue)     (* __report('matched_paths', text p, v) *)
+| EvAttr (p : path) (name : pystr)   (* __report('matched_paths', text p ++ "." ++ name, <bound method>):
                                         a str / bytes searched as a custom object (item None) *)
+| EvUnproc (p : path).               (* self['unprocessed'].append(text p) *)
 
 Inductive result := RRaise | ROk (evs : list event).
 
@@ -73,8 +170,14 @@ Definition str_half (t : Z) : pystr :=
   ((if Z.ltb t 0 then [45%N] else []) ++ p_of_Z (Z.div a 2) ++ [46%N]
    ++ (if Z.eqb (Z.modulo a 2) 0 then [48%N] else [53%N]))%list.
 
-(* isinstance(x, t) for the types of the universe: bool is a subclass of int *)
-Definition isinst (t e : ty) : bool := ty_eqb t e || (ty_eqb t TBool && ty_eqb e TInt).
+(* isinstance(x, e) for t = type(x): bool is a subclass of int, a named-tuple class of tuple *)
+Definition isinst (t e : xty) : bool :=
+  match t, e with
+  | TyB a, TyB b => ty_eqb a b || (ty_eqb a TBool && ty_eqb b TInt)
+  | TyObj c, TyObj d | TyNamed c, TyNamed d => pystr_eqb c d
+  | TyNamed _, TyB b => ty_eqb b TTuple
+  | _, _ => false
+  end.
 
 Section Search.
   Variable slower : pystr -> pystr.       (* s.lower() for a str s (Unicode lower-casing: not a per-character
@@ -110,6 +213,7 @@ Section Search.
     | SKey (ABytes b) => (s2p "['" ++ brepr b ++ s2p "']")%list
     | SKey k => ([91%N] ++ str_atom k ++ [93%N])%list
     | SIdx i => ([91%N] ++ p_of_N (N.of_nat i) ++ [93%N])%list
+    | SAttr n => (46%N :: n)%list                   (* "%s.%s" % (parent, name) *)
     end.
   Definition render (p : path) : pystr := (s2p "root" ++ List.concat (map render_step p))%list.
 
@@ -134,18 +238,18 @@ Section Search.
 
   Definition path_excl (p : path) : bool :=
     let t := render p in existsb (pystr_eqb t) (excl_paths c) || excl_re t.
-  Definition ty_excl (t : ty) : bool := existsb (isinst t) (excl_types c).
+  Definition ty_excl (t : xty) : bool := existsb (isinst t) (excl_types c).
 
   Section Item.
     Variable cs : bool.        (* self.case_sensitive *)
     Variable it : eitem.       (* the item as passed to __search *)
 
     Definition item_excl : bool :=
-      match it with EAtom a => ty_excl (atom_ty a) | ERe _ => false | EVal v => ty_excl (type_of v) end.
+      match it with EAtom a => ty_excl (TyB (atom_ty a)) | ERe _ => false | EVal v => ty_excl (TyB (type_of v)) end.
     (* __skip_this(item, parent)  -- the call at the top of __search *)
     Definition skip_item (p : path) : bool := path_excl p || item_excl.
     (* __skip_this(thing, new_parent)  -- the call in __search_iterable *)
-    Definition skip_this (t : ty) (p : path) : bool := path_excl p || ty_excl t.
+    Definition skip_this (t : xty) (p : path) : bool := path_excl p || ty_excl t.
 
     (* x if self.case_sensitive else x.lower();  isb: x is a bytes *)
     Definition fold_s (isb : bool) (s : pystr) : pystr :=
@@ -165,7 +269,7 @@ Section Search.
     (* __search_str; isb: the object is a bytes *)
     Definition search_str (isb : bool) (s : pystr) (p : path) : list event :=
       let txt := fold_s isb s in
-      let hit := [EvValue p (VAtom (if isb then ABytes s else AStr s))] in
+      let hit := [EvValue p (XAtom (if isb then ABytes s else AStr s))] in
       (* `if isinstance(wanted, (str, bytes)) and not isinstance(obj, type(wanted)): return` *)
       let plain (ib : bool) (i : pystr) : list event :=
         if Bool.eqb ib isb
@@ -183,7 +287,7 @@ Section Search.
 
     (* __search_numbers *)
     Definition search_numbers (a : atom) (p : path) : list event :=
-      let hit := [EvValue p (VAtom a)] in
+      let hit := [EvValue p (XAtom a)] in
       if eq_item a then hit
       else if strict c then []
       else match it with
@@ -210,7 +314,7 @@ Section Search.
     Definition attr_events (names : list pystr) (p : path) : list event :=
       flat_map (fun n => path_test (fold_s false (render p ++ [46%N] ++ n)%list) [EvAttr p n]) names.
     Definition search_obj_atom (a : atom) (p : path) : list event :=
-      ((if eq_item a then [EvValue p (VAtom a)] else [])
+      ((if eq_item a then [EvValue p (XAtom a)] else [])
        ++ match a with
           | AStr _ => attr_events str_attrs p
           | ABytes _ => attr_events bytes_attrs p
@@ -233,55 +337,70 @@ Section Search.
       if skip_item p then [] else search_leaf a p.
 
     (* the matched_paths test of __search_dict for the entry at p' *)
-    Definition path_event (p' : path) (child : value) : list event :=
+    Definition path_event (p' : path) (child : xvalue) : list event :=
       path_test (fold_s false (render p')) [EvPath p' child].
 
     (* thing_cased == item *)
-    Definition thing_eq_item (x : value) : bool :=
+    Definition thing_eq_item (x : xvalue) : bool :=
       match it with
-      | EVal w => py_eqv x w                  (* Python == on containers *)
+      | EVal w => xeqv x w                    (* Python == on containers *)
       | _ => match x with
-             | VAtom a => eq_item (if cs then a else lower_atom a)
+             | XAtom a => eq_item (if cs then a else lower_atom a)
              | _ => false
              end
       end.
-    Definition shortcut (x : value) : bool := negb (use_regexp c) && thing_eq_item x.
+    (* `obj == item` at the top of __search_obj, for a named tuple / an instance *)
+    Definition self_eq (x : xvalue) : bool :=
+      match it with EVal w => xeqv x w | _ => false end.
+    Definition shortcut (x : xvalue) : bool := negb (use_regexp c) && thing_eq_item x.
 
     (* one round of the loop of __search_iterable; srch = __search(thing, item, .) *)
-    Definition thing_events (srch : path -> list event) (x : value) (p' : path) : list event :=
-      if skip_this (type_of x) p' then []
+    Definition thing_events (srch : path -> list event) (x : xvalue) (p' : path) : list event :=
+      if skip_this (xtype_of x) p' then []
       else if shortcut x then [EvValue p' x]
       else srch p'.
 
-    Fixpoint search (obj : value) (p : path) {struct obj} : list event :=
+    Fixpoint search (obj : xvalue) (p : path) {struct obj} : list event :=
       if skip_item p then [] else
+      let attrs_go :=
+        fix go (avs : list (pystr * xvalue)) : list event :=
+          match avs with
+          | [] => []
+          | av :: r =>
+              let p' := (p ++ [SAttr (fst av)])%list in
+              (path_event p' (snd av) ++ search (snd av) p' ++ go r)%list
+          end in
       match obj with
-      | VAtom a => search_leaf a p
-      | VDict kvs =>
-          (fix go (kvs : list (atom * value)) : list event :=
+      | XAtom a => search_leaf a p
+      | XDict kvs =>
+          (fix go (kvs : list (atom * xvalue)) : list event :=
              match kvs with
              | [] => []
              | kv :: r =>
                  let p' := (p ++ [SKey (fst kv)])%list in
                  (path_event p' (snd kv) ++ search (snd kv) p' ++ go r)%list
              end) kvs
-      | VList xs | VTuple xs =>
-          (fix go (xs : list value) (i : nat) : list event :=
+      | XList xs | XTuple xs =>
+          (fix go (xs : list xvalue) (i : nat) : list event :=
              match xs with
              | [] => []
              | x :: r => (thing_events (search x) x (p ++ [SIdx i]) ++ go r (S i))%list
              end) xs 0
-      | VSet xs | VFrozen xs =>
+      | XSet xs | XFrozen xs =>
           (fix go (xs : list atom) (i : nat) : list event :=
              match xs with
              | [] => []
-             | a :: r => (thing_events (search_atom a) (VAtom a) (p ++ [SIdx i]) ++ go r (S i))%list
+             | a :: r => (thing_events (search_atom a) (XAtom a) (p ++ [SIdx i]) ++ go r (S i))%list
              end) xs 0
+      (* __search_obj *)
+      | XObj _ avs => attrs_go avs
+      | XNamed _ avs => ((if self_eq obj then [EvValue p obj] else []) ++ attrs_go avs)%list
+      | XOpaque _ => [EvUnproc p]
       end.
   End Item.
 
   (* DeepSearch(obj, item, **config) *)
-  Definition deep_search (item : value) (obj : value) : result :=
+  Definition deep_search (item : value) (obj : xvalue) : result :=
     match prepare item with
     | PRaise => RRaise
     | PItem cs it => ROk (search cs it obj [])
@@ -295,12 +414,15 @@ Section Search.
     | [] => [(k, v)]
     | (k', v') :: r => if pystr_eqb k k' then (k', v) :: r else (k', v') :: upsert k v r
     end.
-  Definition matched_values (evs : list event) : list (pystr * value) :=
+  Definition matched_values (evs : list event) : list (pystr * xvalue) :=
     fold_left (fun d e => match e with EvValue p v => upsert (render p) v d | _ => d end) evs [].
   (* None stands for a bound builtin method (EvAttr) *)
-  Definition matched_paths (evs : list event) : list (pystr * option value) :=
+  Definition matched_paths (evs : list event) : list (pystr * option xvalue) :=
     fold_left (fun d e => match e with
                           | EvPath p v => upsert (render p) (Some v) d
                           | EvAttr p n => upsert (render p ++ [46%N] ++ n)%list None d
                           | _ => d end) evs [].
+  (* self['unprocessed']: a list, appended to *)
+  Definition unprocessed (evs : list event) : list pystr :=
+    flat_map (fun e => match e with EvUnproc p => [render p] | _ => [] end) evs.
 End Search.
